@@ -40,13 +40,18 @@ func runC01EmptyUnenvelopedMessage(c *Ctx) {
 		fatalf("anchor=transformingReader.Read not found")
 	}
 	n := 0
-	for _, fn := range p.Family(read) {
+	for _, fn := range readerFuncs(p, trT) {
+		ei := errorResultIndex(fn.Signature)
 		for _, call := range Calls(fn) {
 			if call.Common().StaticCallee() != rrm {
 				continue
 			}
 			n++
 			isGiveUp := func(in ssa.Instruction) bool {
+				if ret, ok := in.(*ssa.Return); ok && ei >= 0 {
+					rv := ReturnValues(ret)
+					return ei < len(rv) && !IsNilConst(rv[ei])
+				}
 				st, ok := in.(*ssa.Store)
 				if !ok {
 					return false
@@ -117,7 +122,7 @@ func runC01EmptyUnenvelopedMessage(c *Ctx) {
 		}
 	}
 	if n == 0 {
-		c.Bad("C01.7", FuncName(read), "empty-body-is-a-message", read.Pos(), "the re-encoding reader does not call the message reader: shape changed")
+		c.Bad("C01.7", FuncName(read), "empty-body-is-a-message", read.Pos(), "no method of the re-encoding reader calls the message reader: shape changed")
 	}
 }
 
@@ -198,17 +203,40 @@ func runC01OneMessageTargets(c *Ctx) {
 	rrm := p.MustFunc("(*operation).readRequestMessage")
 	trT := types.NewPointer(p.MustNamed("transformingReader"))
 	firstF := p.MustField("transformingReader", "consumedFirst")
-	if read := p.MethodOf(trT, "Read"); read != nil {
-		for _, fn := range p.Family(read) {
+	_ = rrm
+	{
+		callsRRM := map[*ssa.Function]bool{rrm: true}
+		for _, fn := range readerFuncs(p, trT) {
 			for _, call := range Calls(fn) {
-				if call.Common().StaticCallee() != rrm {
+				if call.Common().StaticCallee() == rrm {
+					callsRRM[fn] = true
+				}
+			}
+		}
+		isPrep := func(in ssa.Instruction) bool {
+			ci, ok := in.(ssa.CallInstruction)
+			return ok && ci.Common().StaticCallee() != nil && N(ci.Common().StaticCallee()) == "prepareMessage"
+		}
+		for _, fn := range readerFuncs(p, trT) {
+			delivers := false
+			ForEachInstr(fn, func(in ssa.Instruction) {
+				if isPrep(in) {
+					delivers = true
+				}
+			})
+			if !delivers {
+				continue
+			}
+			for _, call := range Calls(fn) {
+				sc := call.Common().StaticCallee()
+				if sc == nil || !callsRRM[sc] || sc == fn {
+					continue
+				}
+				if r, _ := MayReach(fn, call, isPrep); !r {
 					continue
 				}
 				n++
-				check(fn, call, func(in ssa.Instruction) bool {
-					ci, ok := in.(ssa.CallInstruction)
-					return ok && ci.Common().StaticCallee() != nil && N(ci.Common().StaticCallee()) == "prepareMessage"
-				}, func(cond ssa.Value, truth bool) bool {
+				check(fn, call, isPrep, func(cond ssa.Value, truth bool) bool {
 					if LoadedField(cond) == firstF && !truth {
 						return true
 					}
@@ -900,4 +928,19 @@ func runC01(c *Ctx) {
 	c.Check(okReset, "C01.3", FuncName(reset), "buffer-emptied", reset.Pos(),
 		"every path through reset installs a fresh pool buffer or Resets the existing one",
 		"a path through reset keeps the previous message's bytes in the buffer (message k+1 is prefixed with message k): "+witnessString(p, path))
+}
+
+// readerFuncs: the methods of a reader adapter type (and closures inside them).
+func readerFuncs(p *Prog, recvT types.Type) []*ssa.Function {
+	set := map[*ssa.Function]bool{}
+	for _, fn := range p.Funcs {
+		top := fn
+		for top.Parent() != nil {
+			top = top.Parent()
+		}
+		if top.Signature.Recv() != nil && types.Identical(top.Signature.Recv().Type(), recvT) {
+			set[fn] = true
+		}
+	}
+	return SortedFuncs(set)
 }
